@@ -26,6 +26,11 @@ fn mutators(id: ARID) -> Vec<(&'static str, Box<dyn Fn(&Envelope) -> Envelope + 
         ("add-second-error", Box::new(|e: &Envelope| e.add_assertion(known_values::ERROR, "E2"))),
         ("add-result", Box::new(|e: &Envelope| e.add_assertion(known_values::RESULT, "R"))),
         ("add-second-result", Box::new(|e: &Envelope| e.add_assertion(known_values::RESULT, "R2"))),
+        // the added part carries an assertion of its own (what add_assertion_salted or an annotation produces): still a result / error / body
+        ("add-error-decorated", Box::new(|e: &Envelope| e.add_assertion_envelope(Envelope::new_assertion(known_values::ERROR, "E").add_assertion("why", "w")).unwrap())),
+        ("add-result-decorated", Box::new(|e: &Envelope| e.add_assertion_envelope(Envelope::new_assertion(known_values::RESULT, "R").add_assertion("why", "w")).unwrap())),
+        ("add-second-body-decorated", Box::new(|e: &Envelope| e.add_assertion_envelope(Envelope::new_assertion(known_values::BODY, Envelope::from(Expression::new("other"))).add_assertion("why", "w")).unwrap())),
+        ("add-second-content-decorated", Box::new(|e: &Envelope| e.add_assertion_envelope(Envelope::new_assertion(known_values::CONTENT, "other-content").add_assertion("why", "w")).unwrap())),
         ("remove-result", Box::new(rm(known_values::RESULT))),
         ("remove-error", Box::new(rm(known_values::ERROR))),
         ("remove-body", Box::new(rm(known_values::BODY))),
